@@ -113,6 +113,19 @@ func (s *ScopeSchema) ApplyNamespace(externalObjects map[string]*ObjectSchema, n
 		// every operation on it would panic on first use: say so now, while the schema is still being built (for a
 		// received description the loaders report the panic as an invalid description).
 		s.RootObject()
+		// References are looked up in this table: an object filed under another key than its ID would be what a
+		// reference to that key denotes, whatever the object with that ID is.
+		for key, object := range s.ObjectsValue {
+			if object == nil {
+				panic(fmt.Sprintf("object with ID %q is nil", key))
+			}
+			if object.ID() != key {
+				panic(fmt.Sprintf(
+					"object's ID %q doesn't match its map key %q; please fix the schema definition",
+					object.ID(), key,
+				))
+			}
+		}
 		objectsToApply = s.Objects()
 	} else {
 		objectsToApply = externalObjects
